@@ -393,3 +393,78 @@ VARIANTS["C20"] = [
     E("flag test reversed", TB, "        if self.delete_checkpoints:\n            logger.info(f\"Removing checkpoints for trial_id = {trial_id}\")", "        if not (not self.delete_checkpoints):\n            logger.info(f\"Removing checkpoints for trial_id = {trial_id}\")"),
     E("set built with comprehension name", SYB, "    top_set = set(top_list)\n    remaining_list = [x[0] for x in rung if x[0] not in top_set]", "    promoted = set(top_list)\n    remaining_list = [x[0] for x in rung if x[0] not in promoted]"),
 ]
+
+
+# ---- variants for the clauses added after the third round of seeded defects
+WP = "syne_tune/optimizer/schedulers/searchers/bayesopt/gpautograd/warping.py"
+SH = "syne_tune/optimizer/schedulers/utils/successive_halving.py"
+TJ = "syne_tune/optimizer/schedulers/searchers/bayesopt/datatypes/tuning_job_state.py"
+
+VARIANTS["C08"] += [
+    E("WarpedKernel.diagonal as an if statement with the right polarity", WP,
+      """        warped_X = self._apply_warpings(X) if self.kernel.diagonal_depends_on_X() else X
+        return self.kernel.diagonal(warped_X)""",
+      """        if self.kernel.diagonal_depends_on_X():
+            X = self._apply_warpings(X)
+        return self.kernel.diagonal(X)"""),
+    B("WarpedKernel.forward passes the raw second argument", WP,
+      """            warped_X2 = self._apply_warpings(X2)
+        return self.kernel(warped_X1, warped_X2)""",
+      """            warped_X2 = X2
+        return self.kernel(warped_X1, warped_X2)""", expect="WarpedKernel.forward"),
+]
+VARIANTS["C03"] += [
+    E("rung levels with ** instead of np.power", SH,
+      "int(round(min_t * np.power(rf, k))) for k in range(max_rungs)",
+      "int(round(min_t * rf ** k)) for k in range(max_rungs)"),
+    B("rung levels from the previous rounded level", SH,
+      "int(round(min_t * np.power(rf, k))) for k in range(max_rungs)",
+      "int(round(rung_levels[-1] * rf)) if k else int(min_t) for k in range(max_rungs)"),
+]
+VARIANTS["C06"] += [
+    E("evaluation_failed marks the trial failed before dropping its pending evaluation", MB,
+      """        self.state_transformer.drop_pending_evaluation(trial_id)
+        # Mark config as failed (which means it will be blacklisted in
+        # future get_config calls)
+        self.state_transformer.mark_trial_failed(trial_id)""",
+      """        self.state_transformer.mark_trial_failed(trial_id)
+        self.state_transformer.drop_pending_evaluation(trial_id)"""),
+    E("all_configurations grows the list in place", TJ,
+      """        _elist = set(_elist + observed_trial_ids)""",
+      """        _elist.extend(observed_trial_ids)
+        _elist = set(_elist)"""),
+    B("evaluation_failed no longer marks the trial failed", MB,
+      """        self.state_transformer.drop_pending_evaluation(trial_id)
+        # Mark config as failed (which means it will be blacklisted in
+        # future get_config calls)
+        self.state_transformer.mark_trial_failed(trial_id)""",
+      """        self.state_transformer.drop_pending_evaluation(trial_id)"""),
+]
+VARIANTS["C15"] += [
+    E("get_top_list sorts with a lambda key instead of itemgetter", SYB,
+      "sorted(rung_valid, key=itemgetter(1), reverse=mode == \"max\")",
+      "sorted(rung_valid, key=lambda x: x[1], reverse=mode == \"max\")"),
+    B("get_top_list adds a trial-id tie break that is reversed with the metric", SYB,
+      "sorted(rung_valid, key=itemgetter(1), reverse=mode == \"max\")",
+      "sorted(rung_valid, key=lambda x: (x[1], x[0] is None), reverse=mode == \"max\")"),
+]
+VARIANTS["C20"] += [
+    E("DEHB pause condition through a local flag", DE,
+      """                if self._support_pause_resume and ext_slot.bracket_id == 0:
+                    trial_decision = SchedulerDecision.PAUSE""",
+      """                can_pause = self._support_pause_resume and ext_slot.bracket_id == 0
+                if can_pause:
+                    trial_decision = SchedulerDecision.PAUSE"""),
+    B("synchronous Hyperband stops a trial at the top rung level", SY,
+      """                # Trial should be paused
+                trial_decision = SchedulerDecision.PAUSE""",
+      """                # Trial should be paused
+                trial_decision = SchedulerDecision.PAUSE
+                if milestone >= self.max_resource_level:
+                    trial_decision = SchedulerDecision.STOP"""),
+]
+VARIANTS["C11"] += [
+    E("_filter_constant_hyperparameters tests membership in a list", "syne_tune/optimizer/schedulers/searchers/utils/hp_ranges.py",
+      "    nonconst_keys = set(non_constant_hyperparameter_keys(config_space))",
+      "    nonconst_keys = non_constant_hyperparameter_keys(config_space)"),
+]
